@@ -18,7 +18,14 @@ import (
 	"golang.org/x/tools/go/ssa/ssautil"
 )
 
-const repoDir = "/repo"
+// repoDir is the tree under verification: /repo for every registered check; the
+// seeded-change and self-test tools point it at a scratch worktree (GOWP_REPO).
+var repoDir = func() string {
+	if d := os.Getenv("GOWP_REPO"); d != "" {
+		return d
+	}
+	return "/repo"
+}()
 const contractFileName = "zz_verif_contracts.go"
 
 type Engine struct {
